@@ -106,6 +106,21 @@ def specGo (ops : List TracerSlots.Op) : List (Nat Ã— TracerSlots.Name Ã— Nat) â
 
 def specObs (ops : List TracerSlots.Op) : List (List TracerSlots.Obs) := specGo ops [] 0 ops
 
+/-! ### the runner's consumer of the tracer (`testResults.fetchTrace`) -/
+
+/-- What a waiter on `n` must collect when its wait begins after the history `before` and it
+is joined after `after` (statement of C16, in terms of the history alone): nothing, at once, if
+the slot of `n` is not initialised then; otherwise the first trace completed for `n` since its
+slot was initialised â€” before the wait began or after â€” as long as the slot is neither
+re-initialised nor cleared; if there is none the waiter is still blocked (second component). -/
+def collectSpec (n : TracerSlots.Name) (before after : List TracerSlots.Op) : Option Nat Ã— Bool :=
+  match epochMid n before with
+  | none => (none, false)
+  | some mid =>
+    match firstComplete n (mid ++ sameEpoch n after) with
+    | some t => (some t, false)
+    | none => (none, true)
+
 /-! ### Builder -/
 open Builder in
 /-- an operation that takes the trace: a finishing event or `build` -/
